@@ -103,7 +103,12 @@ def run(run):
             run.count('permutation')
         # transposition (dual lattice)
         with guard(run, 'transposed context', [base.line]):
-            dt = Definition(objs, props, base.ctx.bools).transposed()
+            d0 = Definition(objs, props, base.ctx.bools)
+            dt = d0.transposed()
+            # what happens to the source afterwards is no business of the transposed definition
+            d0.add_object('added later', props[:1])
+            d0.add_property('also later', objs[:1])
+            d0.rename_object(objs[0], 'renamed later')
             tctx = Context(*dt)
             t = LCtx(list(tctx.objects), list(tctx.properties), [sum(1 << j for j, b in enumerate(r) if b) for r in tctx.bools])
             vt = label_view(t, [])
@@ -131,10 +136,17 @@ def run(run):
         if n <= 7 and m <= 7:
             intents0 = frozenset(i for _, i in v0['concepts'])
             extents0 = frozenset(e for e, _ in v0['concepts'])
+            work = base.ctx.definition()      # one definition edited in place: add the copy, look, remove it again
             for i in range(n):
                 with guard(run, 'duplicated row %d' % i, [base.line]):
                     t = LCtx(objs + ['copy'], props, rows + [rows[i]])
-                    cs = [(frozenset(c.extent), frozenset(c.intent)) for c in t.ctx.lattice]
+                    work.add_object('copy', [p for j, p in enumerate(props) if (rows[i] >> j) & 1])
+                    via_def = Context(*work)
+                    work.remove_object('copy')
+                    if via_def != t.ctx:
+                        run.fail('context of a definition with a copied row (add_object / remove_object in place) differs from the '
+                                 'context built from the table', [via_def.objects, via_def.bools], [t.ctx.objects, t.ctx.bools], [base.line, t.line], extra)
+                    cs = [(frozenset(c.extent), frozenset(c.intent)) for c in via_def.lattice]
                 run.case(base.line + '|duprow %d' % i, nt)
                 if frozenset(i_ for _, i_ in cs) != intents0 or len(cs) != v0['count']:
                     run.fail('duplicating row %d changes the intents / number of concepts' % i, len(cs), v0['count'], [base.line, t.line], extra)
@@ -146,7 +158,13 @@ def run(run):
                     rows2 = [r | (((r >> j) & 1) << m) for r in rows]
                 with guard(run, 'duplicated / full column %r' % j, [base.line]):
                     t = LCtx(objs, props + ['copy'], rows2)
-                    cs = [(frozenset(c.extent), frozenset(c.intent)) for c in t.ctx.lattice]
+                    work.add_property('copy', [o for i2, o in enumerate(objs) if (rows2[i2] >> m) & 1])
+                    via_def = Context(*work)
+                    work.remove_property('copy')
+                    if via_def != t.ctx:
+                        run.fail('context of a definition with a copied column (add_property / remove_property in place) differs from '
+                                 'the context built from the table', [via_def.properties, via_def.bools], [t.ctx.properties, t.ctx.bools], [base.line, t.line], extra)
+                    cs = [(frozenset(c.extent), frozenset(c.intent)) for c in via_def.lattice]
                 run.case(base.line + '|dupcol %r' % j, nt)
                 if frozenset(e for e, _ in cs) != extents0 or len(cs) != v0['count']:
                     run.fail('duplicating column %r changes the extents / number of concepts' % j, len(cs), v0['count'], [base.line, t.line], extra)
